@@ -51,6 +51,23 @@ var linkRows = []linkRow{
 	{name: "function-value-passed-across-modules", want: "7 1\n", mods: map[string]string{
 		"main": "import { apply, count } from b;\nlet calls = 7;\nfn mine(n: int) -> int { calls }\nfn main() { println(apply(mine), count()); }\n",
 		"b":    "let calls = 0;\npub fn apply(f: fn(n: int) -> int) -> int { calls += 1; f(1) }\npub fn count() -> int { calls }\nfn main() {}\n"}},
+	// a call that ends in another module's throw: afterwards the catching function still runs in ITS module
+	{name: "throw-across-module-caught-in-importer", want: "caught boom a\nmain main\na\nmain\n", mods: map[string]string{
+		"main": "import { f } from a;\nlet tag = \"main\";\nfn local() -> str { tag }\nfn main() { try { println(f(1)); } catch e { println(\"caught\", e.message); } println(tag, local()); println(f(0)); println(tag); }\n",
+		"a":    "let tag = \"a\";\npub fn f(n: int) -> str { if n == 1 { throw(\"boom \" + tag); } tag }\nfn main() {}\n"}},
+	{name: "throw-through-two-modules-caught-in-the-middle", want: "a caught boom b\na a\nmain\n", mods: map[string]string{
+		"main": "import { f } from a;\nlet tag = \"main\";\nfn main() { f(); println(tag); }\n",
+		"a":    "import { h } from b;\nlet tag = \"a\";\nfn mine() -> str { tag }\npub fn f() { try { h(); } catch e { println(tag, \"caught\", e.message); } println(tag, mine()); }\nfn main() {}\n",
+		"b":    "let tag = \"b\";\npub fn h() { throw(\"boom \" + tag); }\nfn main() {}\n"}},
+	{name: "throw-from-callback-of-another-module", want: "caught from main\nb 1\nmain\n", mods: map[string]string{
+		"main": "import { run, show } from b;\nlet tag = \"main\";\nfn main() { let cb = fn() { throw(\"from \" + tag); }; try { run(cb); } catch e { println(\"caught\", e.message); } show(); println(tag); }\n",
+		"b":    "let tag = \"b\";\nlet n = 0;\npub fn run(cb: fn() -> null) { n += 1; cb(); n += 100; }\npub fn show() { println(tag, n); }\nfn main() {}\n"}},
+	{name: "throw-across-module-in-a-loop", want: "0 a\ncaught 1\n2 a\ncaught 3\nmain 4\n", mods: map[string]string{
+		"main": "import { f } from a;\nlet tag = \"main\";\nlet seen = 0;\nfn main() { for i in 0..4 { try { println(i, f(i)); } catch e { println(\"caught\", e.message); } seen += 1; } println(tag, seen); }\n",
+		"a":    "let tag = \"a\";\nlet seen = 50;\npub fn f(n: int) -> str { seen += 1; if n % 2 == 1 { throw(n.to_string()); } tag }\nfn main() {}\n"}},
+	{name: "early-return-across-modules", want: "a-early main\na-late main\n", mods: map[string]string{
+		"main": "import { f } from a;\nlet tag = \"main\";\nfn main() { println(f(true), tag); println(f(false), tag); }\n",
+		"a":    "let tag = \"a\";\npub fn f(c: bool) -> str { for i in 0..3 { if c { return tag + \"-early\"; } } tag + \"-late\" }\nfn main() {}\n"}},
 	{name: "same-function-name-in-three-modules", want: "a.f b.f c.f main.f\n", mods: map[string]string{
 		"main": "import { ga } from a;\nimport { gb } from b;\nimport { gc } from c;\nfn f() -> str { \"main.f\" }\nfn main() { println(ga(), gb(), gc(), f()); }\n",
 		"a":    "fn f() -> str { \"a.f\" }\npub fn ga() -> str { f() }\nfn main() {}\n",
